@@ -192,7 +192,7 @@ func checkC15(c *Ctx) {
 				pre       []byte
 				creatable bool
 				limit     int64
-			}{{"fresh", "enc.out", nil, true, -1}, {"existing", "enc.out", []byte("old"), true, -1}, {"missing-dir", "nodir/enc.out", nil, false, -1},
+			}{{"fresh", "enc.out", nil, true, -1}, {"existing", "enc.out", bytes.Repeat([]byte("old content "), 500), true, -1}, {"missing-dir", "nodir/enc.out", nil, false, -1},
 				{"fsize-0", "enc.out", nil, true, 0}, {"fsize-50", "enc.out", nil, true, 50}, {"fsize-250", "enc.out", nil, true, 250},
 				{"fsize-sweep", "enc.out", nil, true, -2}} {
 				if o.limit == -2 {
